@@ -11,7 +11,7 @@ import gens
 import pvtools
 import procoracle as po
 
-FAMILIES = ['process', 'solver', 'curve', 'fit', 'mixture', 'component', 'membrane']
+FAMILIES = ['process', 'solver', 'curve', 'fit', 'mixture', 'component', 'membrane', 'nicurve']
 BRIDGES = ['br_']
 PROPS_V = 'Props/C20.v'
 EXTRA_TARGETS = ['Model/NumCheck.vo']
@@ -105,11 +105,27 @@ CALLS = {
 }
 
 
+def global_knobs():
+    import attr, sys, decimal
+    return (tuple(sorted(numpy.geterr().items())), attr.validators.get_disabled(), sys.getrecursionlimit(),
+            tuple(sorted((k, repr(v)) for k, v in numpy.get_printoptions().items())), decimal.getcontext().prec)
+
+
+KNOBS0 = global_knobs()      # baseline at import, before any modelling call
+
+
 def builtins_hash():
     return hash(repr([snap(x) for x in gens.builtin_mixtures()] + [snap(x) for x in gens.builtin_components()]))
 
 
+def restore_knobs():
+    import attr
+    numpy.seterr(**dict(KNOBS0[0]))
+    attr.validators.set_disabled(KNOBS0[1])
+
+
 def oracle(rng, tier):
+    restore_knobs()          # earlier phases of this process may already have run a state-changing call
     while True:
         w = make_world(rng)
         p = pv.Pervaporation(w['mem'], w['m'])
@@ -120,6 +136,7 @@ def oracle(rng, tier):
         names = (pool + [rng.choice(sorted(CALLS)) for _ in range(12)])[:k]   # without replacement first: every entry point appears often
         h0 = builtins_hash()
         prev = snap(w)
+        knobs = KNOBS0
         for i, name in enumerate(names):
             ok, detail = True, ''
             try:
@@ -139,6 +156,10 @@ def oracle(rng, tier):
                 changed = [k for k in w if snap(w[k]) != snap(pristine[k])]
                 ok, detail = False, 'call #%d (%s) modified shared argument object(s) %r' % (i, name, changed)
             prev = cur
+            if ok and global_knobs() != knobs:
+                now = global_knobs()
+                ok, detail = False, 'call #%d (%s) changed interpreter-wide state: %r' % (i, name, [(a, b) for a, b in zip(knobs, now) if a != b])
+                restore_knobs()
             if ok and builtins_hash() != h0:
                 ok, detail = False, 'call #%d (%s) modified a built-in component or mixture' % (i, name)
             yield {'kind': name, 'case': {'sequence': names[:i + 1], 'mixture': w['m'].name, 'curve_basis': pristine['cs'].diffusion_curves[0].feed_compositions[0].type,
